@@ -292,7 +292,7 @@ _BD = ("[x[1] for x in isort(rem_items(ic(old, old(diff_pre))[0], ic(old, old(di
 
 M.contract(F, "base_diff", params=dict(old=Tree, new=Tree, diff_pre=DiffPre, pops=SeqOp, moved_to_affected=BOOL),
            defaults=dict(moved_to_affected=False), ret=Diff, locals=dict(diff_indexed=SeqIdx, old_indexes=IdxMap, block_in_disorder=BOOL),
-           index_map_type=IdxMap, comp_types={1: Diff}, modifies=["diff_pre"],
+           index_map_type=IdxMap, comp_types={"*": Diff}, modifies=["diff_pre"],
            requires=["covered(old, diff_pre)", "covered(new, diff_pre)", "len(pops) > 0"],
            ensures=["result == " + _BD % dict(pops="pops", mta="moved_to_affected"),
                     "diff_pre == ic(new, ic(old, old(diff_pre))[1])[1]"],
